@@ -40,8 +40,9 @@ def run(ctx):
     ctx.floor("configs-with-validation", len(cs), 1, None)
     for config in cs:
         fx = ctx.facts(config)
-        from .C16 import rule_use_site_sources
+        from .C16 import rule_use_site_sources, rule_defined_from_peek
         rule_use_site_sources(ctx, fx, config, prop="C18")
+        rule_defined_from_peek(ctx, fx, config, prop="C18")
         # ---- the validating entries: functions that construct the event source and call validate, plus iterator nexts
         ents = []
         for e in proto.entries(fx):
